@@ -147,7 +147,7 @@ class _SeqThread:
             w.target(*w.args, **w.kwargs)
 
 
-def weak_config(h, mesh, elem, form, kind, free=None, trial=None, intorder=None, mesh_cls=None, canary=False, nthreads=0):
+def weak_config(h, mesh, elem, form, kind, free=None, trial=None, intorder=None, mesh_cls=None, canary=False, nthreads=0, curved=None):
     import skfem as S
     from skfem.assembly.form.form import FormExtraParams
     ctor, cat, _ = ELEMENTS()[elem]
@@ -155,7 +155,31 @@ def weak_config(h, mesh, elem, form, kind, free=None, trial=None, intorder=None,
     dt = object if h.sym_mode else np.float64
     with warnings.catch_warnings():
         warnings.simplefilter('ignore')
-        m = make_mesh(h, mesh, free=free, cls=mesh_cls)
+        if curved is not None:
+            from engine.zoo import make_curved
+            m = make_curved(h, mesh, curved)       # vertices and mid-side nodes symbolic
+            if h.sym_mode:
+                # precondition: the curved cell maps are non-degenerate at the quadrature points (own second-order map from the node table)
+                import z3
+                from skfem.quadrature import get_quadrature
+                from checks.c10 import quadratic_weights
+                from engine.astdiff import dsym
+                from engine.symnp import det_obj
+                from engine.sym import Sym, tosym
+                Xq, _ = get_quadrature(m.refdom, intorder if intorder is not None else 2 * ctor().maxdeg)
+                em, edm, Pm = m.elem(), np.asarray(m.dofs.element_dofs), m.doflocs
+                Xql = h.const(np.asarray(Xq, dtype=float))      # lifted exactly as the quadrature adapter lifts them
+                Xs = [h.sym('Xc%d' % d, (), nominal=0.3) for d in range(2)]
+                w = quadratic_weights(em, Xs)
+                for K in range(edm.shape[1]):
+                    o = [sum(w[a] * Pm[d, edm[a, K]] for a in range(len(w))) for d in range(2)]
+                    J = np.array([[dsym(tosym(o[a]), Xs[b], {}) for b in range(2)] for a in range(2)], dtype=object)
+                    dJ = tosym(det_obj(J))
+                    for q_ in range(Xq.shape[1]):
+                        sub = [(tosym(Xs[d]).a, tosym(Xql[d, q_]).a) for d in range(2)]
+                        h.assume(Sym(z3.substitute(dJ.a, *sub)) != 0)
+        else:
+            m = make_mesh(h, mesh, free=free, cls=mesh_cls)
         e = ctor()
         vb = make_basis(h, m, e, kind, intorder=intorder)
         if trial is None:
@@ -412,6 +436,8 @@ def build_configs(tier, seed):
             name += '/free=%s' % (kw['free'] if isinstance(kw['free'], str) else ','.join(map(str, kw['free'])))
         if kw.get('nthreads'):
             name += '/nthreads=%d' % kw['nthreads']
+        if kw.get('curved'):
+            name += '/curved-%s' % kw['curved']
         if any(c['name'] == name for c in cfgs):
             return
         opts = dict(timeout=300 if quick else 1800)
@@ -466,6 +492,8 @@ def build_configs(tier, seed):
     # a coefficient-vector parameter belongs to the TRIAL basis: different sides / different elements for trial and test
     add('tri2', 'TriP1', 'field', 'ifacet-0', trial=('TriP1', 'ifacet-1'))
     add('tri2', 'TriP2', 'gradfield', 'cell', trial=('TriP1', None))
+    # (curved second-order meshes were tried with symbolic mid-side nodes: the library's `detDF == 0` guard forks on a determinant the
+    #  solver cannot separate from the harness' own non-degeneracy assumption within minutes - outside the claim, DESIGN 10.6)
     # threaded kernel: rectangular local matrices in both directions, more threads than pairs, facet bases
     add('tri2', 'TriP1', 'nonsym', 'cell', trial=('TriP2', None), nthreads=2)
     add('tri2', 'TriP2', 'wx', 'cell', trial=('TriP0', None), nthreads=4)
